@@ -63,6 +63,7 @@ def tasks(tier):
         for a in range(len(RED)):
             ts.append(("box3r", a))
     ts.append(("product",))
+    ts.append(("long",))
     ts.append(("reject",))
     return ts
 
@@ -155,6 +156,13 @@ def run_task(task, acc):
                 for b in BOXES:
                     for r in (None, 1.0, 600_000.0, 1e8):
                         yield dict(track=o, bbox=list(b), range_max=r)
+        run_cases(acc, gen(), check_case)
+    elif kind == "long":
+        def gen():
+            track = [list(p) for p in alpha.debruijn(tuple(BOXPOS), 2)]  # every ordered pair of positions as a hop, 1297 fixes
+            for b in BOXES:
+                for r in (None, 0.0, 1000.0, 111_000.0, 250_000.0, 1e7):
+                    yield dict(track=track, bbox=list(b), range_max=r)
         run_cases(acc, gen(), check_case)
     elif kind == "reject":
         def gen():
